@@ -656,7 +656,7 @@ def generate(tier, seed):
             cases.append(make_case(vd_load, text, m, dt, kind))
 
     # 1. valid files
-    n_valid = 130 if quick else 1100
+    n_valid = 100 if quick else 1100
     for i in range(n_valid):
         dt = "float64" if i % 2 == 0 else "float32"
         big = (i % 10 == 0)
